@@ -3,7 +3,7 @@
     implementation's outcome / messages / post-state as literals; [check_step] runs the model's
     [step] from the *implementation's* pre-state and compares, component by component.  The
     per-property projections of DESIGN.md §4.2 are unions of these components (tools/props.py). *)
-From FM Require Export World.
+From FM Require Export World Totals.
 
 (** ** Observations *)
 Record cfgT := mkCfg {
@@ -129,38 +129,6 @@ Fixpoint code_leb (a b : list N) : bool :=
 
 Definition msgs_eqb (a b : list out_msg) : bool :=
   list_eqb (list_eqb N.eqb) (isort code_leb (map msg_code a)) (isort code_leb (map msg_code b)).
-
-(** ** Totals (the C01 / C10 projections) *)
-Definition fee_amt (d : denom) (f : option coin) : N :=
-  match f with Some (d', a) => if d' =? d then a else 0 | None => 0 end.
-
-Definition owed_native (s : mstate) (d : denom) : N :=
-  sumN (map (fun e => amount_of d (native (for_sale (snd e))) + fee_amt d (lfee (snd e))) (listings s))
-  + sumN (map (fun e => amount_of d (native (funds (snd e))) + fee_amt d (bfee (snd e))) (buckets s)).
-
-Definition owed_cw20 (s : mstate) (t : addr) : N :=
-  sumN (map (fun e => amount_of t (cw20 (for_sale (snd e)))) (listings s))
-  + sumN (map (fun e => amount_of t (cw20 (funds (snd e)))) (buckets s)).
-
-Definition recorded_nfts (s : mstate) : list (addr * tokid) :=
-  flat_map (fun e => nfts (for_sale (snd e))) (listings s)
-  ++ flat_map (fun e => nfts (funds (snd e))) (buckets s).
-
-Definition pending_fees (s : mstate) (d : denom) : N :=
-  sumN (map (fun e => fee_amt d (lfee (snd e))) (listings s))
-  + sumN (map (fun e => fee_amt d (bfee (snd e))) (buckets s)).
-
-Definition sent_native (ms : list out_msg) (d : denom) : N :=
-  sumN (map (fun m => match m with
-                      | BankSend _ cs => amount_of d cs
-                      | FundPool _ c => fee_amt d (Some c)
-                      | _ => 0 end) ms).
-
-Definition sent_cw20 (ms : list out_msg) (t : addr) : N :=
-  sumN (map (fun m => match m with Cw20Transfer t' _ a => if t' =? t then a else 0 | _ => 0 end) ms).
-
-Definition sent_nfts (ms : list out_msg) : list (addr * tokid) :=
-  flat_map (fun m => match m with NftTransfer c _ k => [(c, k)] | _ => [] end) ms.
 
 (** ** The comparison *)
 Definition bit (i : N) (mismatch : bool) : N := if mismatch then 2 ^ i else 0.
